@@ -48,6 +48,18 @@ MUTANTS = {
         ("versionless_validation_uses_last_versioned_schema", [(VA, "        else:\n            validator = self.get_schema_validator(schema_name)", "        elif getattr(self, '_last', None) is not None and schema_name in self._last:\n            validator = self._last[schema_name]\n        else:\n            validator = self.get_schema_validator(schema_name)"),
                                                                (VA, "            validator = jsonschema.Draft4Validator(schema=jsn_schema)\n", "            validator = jsonschema.Draft4Validator(schema=jsn_schema)\n            self._last = getattr(self, '_last', None) or {}\n            self._last[schema_name] = validator\n")]),
     ],
+    "C20": [
+        ("format_ignores_quote", [(CL, "        quote=quote,\n        newlinechar=newlinechar,\n    )\n    sys.exit(0)", "        newlinechar=newlinechar,\n    )\n    sys.exit(0)")]),
+        ("validate_counts_files_not_messages", [(CL, "                click.echo(msg)\n                errors += 1", "                click.echo(msg)\n            errors += 1")]),
+        ("dump_appends_newline", [(UT, "    fp.write(map_string)", "    fp.write(map_string + newlinechar)")]),
+        ("format_drops_comments_flag", [(CL, "        include_comments=comments,\n        include_position=True,", "        include_position=True,")]),
+        ("open_translates_newlines_again", [(PA, 'with open(fn, "r", encoding="utf-8", newline="") as f:', 'with open(fn, "r", encoding="utf-8") as f:')]),
+        ("parse_failure_not_counted_again", [(CL, "            click.echo(f\"{fn} failed to parse successfully\")\n            errors += 1\n", "            click.echo(f\"{fn} failed to parse successfully\")\n")]),
+        ("exit_status_unclamped_again", [(CL, "sys.exit(min(errors, 255))", "sys.exit(errors)")]),
+        ("save_replaces_unencodable", [(UT, 'with codecs.open(output_file, "w", encoding="utf-8") as f:', 'with codecs.open(output_file, "w", encoding="utf-16") as f:')]),
+        ("validate_ignores_version_option", [(CL, "        validation_messages = mappyfile.validate(d, version)", "        validation_messages = mappyfile.validate(d)")]),
+        ("load_strips_text", [(PA, "        text = fp.read()\n", "        text = fp.read().strip()\n")]),
+    ],
     "C15": [
         ("resolve_relative_to_including_file", [(PA, "include_text, fn=fn, _nested_includes=_nested_includes + 1", "include_text, fn=inc_file_path, _nested_includes=_nested_includes + 1")]),
         ("max_depth_6", [(PA, "if _nested_includes == 5:", "if _nested_includes == 6:")]),
